@@ -805,6 +805,13 @@ def check(program, rep):
         B = C06._Burst(program)
         C06.r2_fresh(program, rep, B, folder)
     rep.guard("C06-R2", seq_rule, program, rep, folder)
+
+    # ... and every reply is handed to the callback of its own command,
+    # exactly once (C06-R3): the callbacks are what store the data read
+    def once_rule(program, rep):
+        B = C06._Burst(program)
+        C06.r3_once(program, rep, B)
+    rep.guard("C06-R3", once_rule, program, rep)
     rep.floor("C07-R1", 25)
     return finish(rep, program, EXPLANATION, NOT_DECIDED,
                   trusted=["slice-length and floor-division axioms of the "
